@@ -14,6 +14,7 @@ package cache
 
 // removeElement / evictOldest work on a cache whose size bound may be temporarily exceeded (wfLRUx).
 //@ func (*LRUCache).removeElement
+//@   requires holds(c)
 //@   requires wfLRUx(c) && element != nil && lof(element) == c.evictList
 //@   modifies c.items[*], ghost(llen), ghost(lat), ghost(lpos), ghost(lof)
 //@   ensures[C12.remove-wf] wfLRUx(c) && len(c.items) == old(len(c.items)) - 1 && lof(element) == nil
@@ -23,6 +24,7 @@ package cache
 //@   ensures[C12.remove-order-after] forall i int :: old(lpos(element)) <= i && i < llen(c.evictList) ==> lat(c.evictList, i) == old(lat(c.evictList, i + 1))
 
 //@ func (*LRUCache).evictOldest
+//@   requires holds(c)
 //@   requires wfLRUx(c)
 //@   modifies c.*, c.items[*], ghost(llen), ghost(lat), ghost(lpos), ghost(lof)
 //@   ensures[C12.evict-wf] wfLRUx(c) && c.capacity == old(c.capacity) && c.ttl == old(c.ttl) && c.hits == old(c.hits) && c.misses == old(c.misses) && c.items == old(c.items) && c.evictList == old(c.evictList)
@@ -148,3 +150,35 @@ package cache
 //@   requires scWF(sc)
 //@   modifies sc.cache.*, ghost(llen), ghost(lof), ghost(lstale)
 //@   ensures[C05.invalidate] scWF(sc) && len(sc.cache.items) == 0 && sc.enabled == old(sc.enabled)
+
+// C11 lock discipline: the mutable state of the LRU cache is touched only under its mutex
+// (exclusively for writes); capacity and ttl are assigned by the constructor only.
+//@ guarded LRUCache mu items evictList hits misses evictions
+
+// C11 concurrent mode: every write of these operations to memory that existed before the call
+// happens under an exclusive lock (or is atomic), and every callee that writes shared memory is
+// itself verified in concurrent mode or runs inside the critical section.
+//@ func (*LRUCache).Get
+//@   opt concurrent yes
+//@ func (*LRUCache).Put
+//@   opt concurrent yes
+//@ func (*LRUCache).Delete
+//@   opt concurrent yes
+//@ func (*LRUCache).Clear
+//@   opt concurrent yes
+//@ func (*LRUCache).Size
+//@   opt concurrent yes
+//@ func (*LRUCache).Capacity
+//@   opt concurrent yes
+//@ func (*LRUCache).Stats
+//@   opt concurrent yes
+//@ func (*LRUCache).Keys
+//@   opt concurrent yes
+//@ func (*LRUCache).CleanupExpired
+//@   opt concurrent yes
+//@ func (*SearchCache).Get
+//@   opt concurrent yes
+//@ func (*SearchCache).Put
+//@   opt concurrent yes
+//@ func (*SearchCache).Invalidate
+//@   opt concurrent yes
